@@ -18,7 +18,13 @@ RULE = ("case = (byte order, width 1..64, position 0..511, set switches (bitNumb
         "the sibling before the set and between the set and the judged query; the call that is judged is the LAST set "
         "and the LAST query of that history, sent to the driver in the shape of a single set/get pair, so a position "
         "before bit 0 has to be refused every time and an accepted call has to store its position whatever was asked "
-        "before. Non-trivial = distinct case in which the position is accepted and the signal "
+        "before. A last stream varies the FORM of the calls (key 'call' of the case = [form of the set call, form of the "
+        "query]): the switches given by keyword, positionally in the documented order (position, numbering, lsbit switch), "
+        "the first positionally and the second by keyword, every argument by keyword in another order, and with the "
+        "arguments that have their default value left out (by keyword or positionally), on set_startbit and on "
+        "get_startbit, in the judged pair and in the calls of its history; all forms are the same call, so the driver "
+        "gets the same set/get pair. After a refused call the width and the byte order of the signal have to be what "
+        "they were, too. Non-trivial = distinct case in which the position is accepted and the signal "
         "is wider than one bit or a renumbering takes place.")
 EXHAUSTIVE = {"thorough": True, "quick": False}
 PARTIAL = []
@@ -32,8 +38,12 @@ BN = [None, 0, 1]
 SL = [False, True]
 
 
-def mk(little, size, start, bns, sls, bng, slg, k, h=None):
+def mk(little, size, start, bns, sls, bng, slg, k, h=None, call=None):
     case = {"op": "sg", "c": [little, size, start, bns, sls, bng, slg, k]}
+    if call and list(call) != ["kw", "kw"]:
+        # the form in which the judged set call and the judged query are written (see FORMS); not sent to the driver: every form
+        # is the same call
+        case["call"] = list(call)
     if h:
         # history of calls before / around the judged pair; not sent to the driver (it judges the last set and the last query)
         case["h"] = h
@@ -53,6 +63,96 @@ def mk(little, size, start, bns, sls, bng, slg, k, h=None):
 # "post" runs between the judged set and the judged query and contains nothing that may move the signal under test.
 # ---------------------------------------------------------------------------------------------------------------------
 SIZES = [1, 2, 7, 8, 9, 12, 16, 31, 32, 33, 63, 64]
+
+# ---------------------------------------------------------------------------------------------------------------------
+# forms of a call.  set_startbit(start_bit, bitNumbering=None, startLittle=None) and get_startbit(bit_numbering=None,
+# start_little=None) are public: the switches may be given by keyword or by position, and an argument that has its default value
+# may be left out.  All forms below denote the same call.
+#   kw       switches by keyword (the form of every stream but the last one)
+#   pos      everything positionally, in the documented order
+#   poskw    numbering switch positionally, lsbit switch by keyword
+#   allkw    every argument by keyword (also the position), lsbit switch first
+#   omit     switches that have their default value (numbering None, lsbit switch not set) left out, the others by keyword
+#   omitpos  positionally as far as needed: trailing switches that have their default value left out
+# A history step ["set", ...] / ["rej", t] / ["get", ...] may carry a form as an extra last element; "same" / "sameget" use the
+# forms of the judged pair.
+# ---------------------------------------------------------------------------------------------------------------------
+FORMS = ["kw", "pos", "poskw", "allkw", "omit", "omitpos"]
+
+
+def _args(form, names, first, bn, sl):
+    """(args, kwargs) of a call with the optional leading argument `first` (a list), numbering switch bn and lsbit switch sl"""
+    nb, nl = names
+    if form == "kw":
+        return first, {nb: bn, nl: sl}
+    if form == "pos":
+        return first + [bn, sl], {}
+    if form == "poskw":
+        return first + [bn], {nl: sl}
+    if form == "allkw":
+        kw = {nl: sl, nb: bn}
+        if first:
+            kw["start_bit"] = first[0]
+        return [], kw
+    if form == "omit":
+        kw = {}
+        if sl:
+            kw[nl] = sl
+        if bn is not None:
+            kw[nb] = bn
+        return first, kw
+    if form == "omitpos":
+        return first + ([bn, sl] if sl else [bn] if bn is not None else []), {}
+    raise ValueError("unknown form of a call %r" % (form,))
+
+
+SET_NAMES = ("bitNumbering", "startLittle")
+GET_NAMES = ("bit_numbering", "start_little")
+
+
+def call_set(sig, start, bn, sl, form="kw"):
+    a, kw = _args(form, SET_NAMES, [start], bn, sl)
+    return sig.set_startbit(*a, **kw)
+
+
+def call_get(sig, bn, sl, form="kw"):
+    a, kw = _args(form, GET_NAMES, [], bn, sl)
+    return sig.get_startbit(*a, **kw)
+
+
+def _src(form, names, first, bn, sl):
+    a, kw = _args(form, names, first, bn, sl)
+    return ",".join(["%r" % x for x in a] + ["%s=%r" % it for it in kw.items()])
+
+
+def with_forms(rng, h):
+    """the other calls of a history are written in generated forms, too"""
+    def f(st):
+        if st[0] in ("set", "get", "rej") and rng.random() < 0.7:
+            return st + [rng.choice(FORMS)]
+        return st
+    return {"sib": h["sib"], "pre": [f(st) for st in h["pre"]], "post": [f(st) for st in h["post"]]}
+
+
+def pick_call(rng):
+    r = rng.random()
+    if r < 0.6:
+        return [rng.choice(FORMS[1:]), rng.choice(FORMS)]
+    if r < 0.8:
+        return ["kw", rng.choice(FORMS[1:])]
+    f = rng.choice(FORMS[1:])
+    return [f, f]
+
+
+def form_case(rng):
+    """a set/get pair written in a generated form, half of them inside a history of calls"""
+    little = rng.random() < 0.35
+    size = rng.choice(SIZES + [rng.randint(1, 64)])
+    start = rng.choice([rng.randint(0, 511), rng.randint(0, 70), rng.randint(0, max(0, size - 1)), 8 * rng.randint(0, 63) + 7])
+    bns, sls = rng.choice(BN), rng.random() < 0.6
+    bng, slg = rng.choice(BN), rng.choice(SL)
+    h = with_forms(rng, rand_hist(rng, little, size, start)) if rng.random() < 0.5 else None
+    return mk(little, size, start, bns, sls, bng, slg, pick_k(rng, start, size), h, pick_call(rng))
 
 
 def rand_hist(rng, little, size, start):
@@ -141,6 +241,17 @@ def gen(rng, tier, shard, nshards):
                              rand_hist(rng, little, size, start))
         for _ in range(40000 // nshards):
             yield hist_case(rng)
+        # every place once more with the calls written in another form (form cycles through the places, switches sampled)
+        j = 0
+        for start in range(shard, 512, nshards):
+            for little in (False, True):
+                for size in range(1, 65):
+                    fs, fg = FORMS[1 + j % 5], FORMS[(j // 5) % 6]
+                    j += 1
+                    yield mk(little, size, start, rng.choice(BN), rng.random() < 0.7, rng.choice(BN), rng.choice(SL),
+                             pick_k(rng, start, size), None, [fs, fg])
+        for _ in range(60000 // nshards):
+            yield form_case(rng)
     else:
         n = 60000 // nshards
         for _ in range(n):
@@ -158,47 +269,64 @@ def gen(rng, tier, shard, nshards):
         # histories of calls around the judged pair (own PRNG use after the streams above: their cases stay what they were)
         for _ in range(16000 // nshards):
             yield hist_case(rng)
+        # the calls written in other forms (positional switches, defaults left out, ...), with and without a history
+        for _ in range(16000 // nshards):
+            yield form_case(rng)
+        if shard == 1 % nshards:
+            # every form of the set call x every form of the query, at byte boundaries, both byte orders, lsbit and msbit positions
+            for fs, fg in itertools.product(FORMS, FORMS):
+                for little in (False, True):
+                    for size in (1, 8, 12, 33):
+                        for start in (7, 8, 63, 300):
+                            for bns, sls in itertools.product(BN, SL):
+                                yield mk(little, size, start, bns, sls, rng.choice(BN), rng.choice(SL),
+                                         pick_k(rng, start, size), None, [fs, fg])
 
 
 def neighbours(case, rng, shard, nshards):
     little, size, start, bns, sls, bng, slg, k = case["c"]
     h = case.get("h")
+    call = case.get("call")
     for _ in range(400 // nshards + 1):
         size2 = max(1, min(64, size + rng.randint(-2, 2)))
         start2 = max(0, min(511, start + rng.randint(-9, 9)))
         # a disagreement may stem from what happened before: keep the history, drop it, or draw another one
         r = rng.random()
         h2 = h if r < 0.4 else (None if r < 0.6 else rand_hist(rng, little, size2, start2))
+        # ... or from the form in which the call was written
+        call2 = call if call and rng.random() < 0.7 else (pick_call(rng) if call or rng.random() < 0.3 else None)
+        if call2 and h2 is not None and h2 is not h:
+            h2 = with_forms(rng, h2)
         yield mk(little, size2, start2,
-                 rng.choice(BN), rng.choice(SL), rng.choice(BN), rng.choice(SL), pick_k(rng, start, size), h2)
+                 rng.choice(BN), rng.choice(SL), rng.choice(BN), rng.choice(SL), pick_k(rng, start, size), h2, call2)
 
 
-def _try_set(sig, start, bn, sl):
+def _try_set(sig, start, bn, sl, form="kw"):
     """a caller that catches the declared error, as the importers do"""
     try:
-        sig.set_startbit(start, bitNumbering=bn, startLittle=sl)
+        call_set(sig, start, bn, sl, form)
         return True
     except cm.StartbitLowerZero:
         return False
 
 
-def _run_steps(steps, sigs, c):
+def _run_steps(steps, sigs, c, call=("kw", "kw")):
     little, size, start, bns, sls, bng, slg, k = c
     for st in steps:
         kind = st[0]
         if kind == "same":
-            _try_set(sigs[st[1]], start, bns, sls)
+            _try_set(sigs[st[1]], start, bns, sls, call[0])
         elif kind == "set":
-            _try_set(sigs[st[1]], st[2], st[3], st[4])
+            _try_set(sigs[st[1]], st[2], st[3], st[4], st[5] if len(st) > 5 else "kw")
         elif kind == "rej":
             # lsbit at bit 0 of a Motorola signal wider than one bit: no room for the bits in front of it.  On any other signal
             # the call would be a legitimate move to bit 0, which is not what this step is for: left out there
             if sigs[st[1]].is_little_endian is False and sigs[st[1]].size >= 2:
-                _try_set(sigs[st[1]], 0, False, True)
+                _try_set(sigs[st[1]], 0, False, True, st[2] if len(st) > 2 else "kw")
         elif kind == "get":
-            sigs[st[1]].get_startbit(bit_numbering=st[2], start_little=st[3])
+            call_get(sigs[st[1]], st[2], st[3], st[4] if len(st) > 4 else "kw")
         elif kind == "sameget":
-            sigs[st[1]].get_startbit(bit_numbering=bng, start_little=slg)
+            call_get(sigs[st[1]], bng, slg, call[1])
         elif kind == "pos":
             sigs[st[1]].start_bit = st[2]
         elif kind == "size":
@@ -225,25 +353,31 @@ def observe(case):
         for sl0 in SL:
             sig.get_startbit(bit_numbering=bn0, start_little=sl0)
     h = case.get("h")
+    call = case.get("call") or ["kw", "kw"]
     sigs = None
     if h:
         # the judged pair is the last set and the last query of a longer history of calls (on this object and on a sibling)
         sib = cm.Signal("t", size=h["sib"][1], is_little_endian=h["sib"][0], is_signed=False)
         sigs = [sig, sib]
-        _run_steps(h["pre"], sigs, case["c"])
+        _run_steps(h["pre"], sigs, case["c"], call)
         sig.size = size
         sig.is_little_endian = little
         prior = sig.start_bit
     try:
-        sig.set_startbit(start, bitNumbering=bns, startLittle=sls)
+        call_set(sig, start, bns, sls, call[0])
     except cm.StartbitLowerZero:
-        # nothing may have been stored
-        return {"set": None, "get": None, "dec": None, "stored": 0 if sig.start_bit == prior else "changed to %d" % sig.start_bit}
+        # nothing may have been stored: neither a position nor anything else the call touches
+        stored = 0
+        if sig.start_bit != prior:
+            stored = "changed to %r" % (sig.start_bit,)
+        elif sig.size != size or type(sig.size) is not int or sig.is_little_endian is not little:
+            stored = "width / byte order changed to %r / %r" % (sig.size, sig.is_little_endian)
+        return {"set": None, "get": None, "dec": None, "stored": stored}
     internal = sig.start_bit
     if h:
         # nothing in here may move the signal under test: queries, the same call again, refused calls, work on the sibling
-        _run_steps(h["post"], sigs, case["c"])
-    got = sig.get_startbit(bit_numbering=bng, start_little=slg)
+        _run_steps(h["post"], sigs, case["c"], call)
+    got = call_get(sig, bng, slg, call[1])
     dec = None
     if internal >= 0 and internal + size <= FRAME_BYTES * 8:
         fr = cm.Frame("f", arbitration_id=cm.ArbitrationId(1, False), size=FRAME_BYTES)
@@ -265,6 +399,12 @@ def features(case, impl):
     yield "rejected" if impl.get("set") is None else "accepted"
     if impl.get("dec"):
         yield "probe-bit-inside-signal"
+    call = case.get("call")
+    if call:
+        yield "form of the set call: " + call[0]
+        yield "form of the query: " + call[1]
+        if call[0] in ("pos", "omitpos") and sls:
+            yield "form: lsbit switch of set_startbit given positionally"
     h = case.get("h")
     if h:
         yield "history"
@@ -287,37 +427,51 @@ def nontrivial(case, impl):
 def shrink_candidates(case):
     little, size, start, bns, sls, bng, slg, k = case["c"]
     h = case.get("h")
+    call = case.get("call")
     if h:
-        yield mk(little, size, start, bns, sls, bng, slg, k)
+        yield mk(little, size, start, bns, sls, bng, slg, k, None, call)
         for part in ("post", "pre"):
             for j in range(len(h[part])):
                 h2 = dict(h)
                 h2[part] = h[part][:j] + h[part][j + 1:]
-                yield mk(little, size, start, bns, sls, bng, slg, k, h2 if h2["pre"] or h2["post"] else None)
+                yield mk(little, size, start, bns, sls, bng, slg, k, h2 if h2["pre"] or h2["post"] else None, call)
+    if call:
+        # the plain form of the query, of the set call, of both
+        for c2 in (["kw", "kw"], [call[0], "kw"], ["kw", call[1]]):
+            if c2 != call:
+                yield mk(little, size, start, bns, sls, bng, slg, k, h, c2)
     if size > 1:
-        yield mk(little, size - 1, start, bns, sls, bng, slg, k, h)
+        yield mk(little, size - 1, start, bns, sls, bng, slg, k, h, call)
     if start > 0:
-        yield mk(little, size, start - 1, bns, sls, bng, slg, k, h)
-        yield mk(little, size, start // 2, bns, sls, bng, slg, k, h)
+        yield mk(little, size, start - 1, bns, sls, bng, slg, k, h, call)
+        yield mk(little, size, start // 2, bns, sls, bng, slg, k, h, call)
 
 
 def recipe(case):
     little, size, start, bns, sls, bng, slg, k = case["c"]
     h = case.get("h")
+    call = case.get("call") or ["kw", "kw"]
+    judged_set = "s.set_startbit(%s)" % _src(call[0], SET_NAMES, [start], bns, sls)
+    judged_get = "s.get_startbit(%s)" % _src(call[1], GET_NAMES, [], bng, slg)
     if not h:
         return ("import canmatrix.canmatrix as cm; s=cm.Signal('s',size=%d,is_little_endian=%s,is_signed=False); "
-                "s.set_startbit(%d,bitNumbering=%r,startLittle=%r); print(s.start_bit, s.get_startbit(bit_numbering=%r,start_little=%r))"
-                % (size, little, start, bns, sls, bng, slg))
+                "%s; print(s.start_bit, s.size, %s)" % (size, little, judged_set, judged_get))
     names = ["s", "t"]
 
     def lines(steps):
         for st in steps:
             if st[0] in ("same", "set", "rej"):
-                a = (start, bns, sls) if st[0] == "same" else (0, False, True) if st[0] == "rej" else tuple(st[2:5])
-                yield "try: %s.set_startbit(%d,bitNumbering=%r,startLittle=%r)\nexcept cm.StartbitLowerZero: print('refused')" % ((names[st[1]],) + a)
+                if st[0] == "same":
+                    a, f = (start, bns, sls), call[0]
+                elif st[0] == "rej":
+                    a, f = (0, False, True), (st[2] if len(st) > 2 else "kw")
+                else:
+                    a, f = tuple(st[2:5]), (st[5] if len(st) > 5 else "kw")
+                yield "try: %s.set_startbit(%s)\nexcept cm.StartbitLowerZero: print('refused')" % (
+                    names[st[1]], _src(f, SET_NAMES, [a[0]], a[1], a[2]))
             elif st[0] in ("get", "sameget"):
-                a = (bng, slg) if st[0] == "sameget" else tuple(st[2:4])
-                yield "%s.get_startbit(bit_numbering=%r,start_little=%r)" % ((names[st[1]],) + a)
+                a, f = ((bng, slg), call[1]) if st[0] == "sameget" else (tuple(st[2:4]), st[4] if len(st) > 4 else "kw")
+                yield "%s.get_startbit(%s)" % (names[st[1]], _src(f, GET_NAMES, [], a[0], a[1]))
             elif st[0] == "pos":
                 yield "%s.start_bit=%d" % (names[st[1]], st[2])
             elif st[0] == "size":
@@ -329,7 +483,7 @@ def recipe(case):
            "t=cm.Signal('t',size=%d,is_little_endian=%s,is_signed=False)" % (h["sib"][1], h["sib"][0])]
     out += list(lines(h["pre"]))
     out += ["s.size=%d; s.is_little_endian=%s" % (size, little),
-            "s.set_startbit(%d,bitNumbering=%r,startLittle=%r)  # judged: refused with StartbitLowerZero or stored" % (start, bns, sls)]
+            judged_set + "  # judged: refused with StartbitLowerZero or stored"]
     out += list(lines(h["post"]))
-    out += ["print(s.start_bit, s.get_startbit(bit_numbering=%r,start_little=%r))" % (bng, slg)]
+    out += ["print(s.start_bit, s.size, %s)" % judged_get]
     return "\n".join(out)
